@@ -184,11 +184,26 @@ func (p *Program) preDecodeBlocks() ExitReason {
 
 		for {
 			if pc >= ProgramCounter(n) {
-				return ExitPanic
+				// (GP A.2) the code is implicitly followed by zeros, i.e. by trap: a last block without
+				// a terminator ends in a trap that is executed (and charged) when it is reached
+				p.Instrs = append(p.Instrs, InstrMeta{
+					PC:     pc,
+					Opcode: 0,
+					Dst:    0xFF,
+					Src:    [2]uint8{0xFF, 0xFF},
+					Exec:   instrMetaExecForOpcode(0),
+				})
+				block.EndPC = pc
+				block.InstrEnd = len(p.Instrs)
+				block.GasCost = Gas(block.InstrEnd - block.InstrStart)
+				p.BlockAt[block.StartPC] = block
+				break
 			}
 			op := idata[pc]
 			if !IsValidOpcode(op) {
-				return ExitPanic
+				// (GP A.19) an invalid opcode behaves as trap when it is reached; it does not make the
+				// whole program invalid
+				op = 0
 			}
 
 			skipLen := skip(int(pc), bitmask)
